@@ -9,4 +9,5 @@ mkdir -p build evidence lean/IpldModel/Generated
 ./build/translate /repo lean/IpldModel/Generated || true
 (cd lean && lake build)
 (cd go && go build -tags verif -o ../build/vcheck-bin ./cmd/vcheck)
+(cd go && CGO_ENABLED=1 go build -race -tags verif -o ../build/vcheck-race ./cmd/vcheck) || echo "warning: race-instrumented harness not built (C20 will report it)"
 echo setup done
